@@ -2,8 +2,8 @@
 // bounds: x = 1.m * 2^63, all 2^52 mantissas; unwind 67 (checked)
 // functions: rusty_variant::bits::f64_int_bits
 // failed check: assertion failed: got.len() == 63
-//   assertion failed: got.len() == 63 at rusty_variant/src/bits.rs:3279:17 in function bits::vk_c19::vk_c19_mkd_int_bits_e63
-// native replay: dev=True release=False dev/kani_concrete_playback_vk_c19_mkd_int_bits_e63_4208335957671079258: panicked at rusty_variant/src/bits.rs:3279:17: assertion failed: got.len() == 63; release/kani_concrete_playback_vk_c19_mkd_int_bits_e63_4208335957671079258: native build failed
+//   assertion failed: got.len() == 63 at rusty_variant/src/bits.rs:2292:17 in function bits::vk_c19::vk_c19_mkd_int_bits_e63
+// native replay: dev=True release=True dev/kani_concrete_playback_vk_c19_mkd_int_bits_e63_4208335957671079258: panicked at rusty_variant/src/bits.rs:2292:17: assertion failed: got.len() == 63; release/kani_concrete_playback_vk_c19_mkd_int_bits_e63_4208335957671079258: panicked at rusty_variant/src/bits.rs:2292:17: assertion failed: got.len() == 63
 // BASIC program reaching the failing call:
 //   PRINT CVD(MKD$(1.6D+20))
 // Replay: ./vk replay /verif/replays/C19-vk_c19_mkd_int_bits_e63.rs   (re-injects the harness module below into a scratch copy of /repo,
